@@ -324,6 +324,40 @@ func (c *Check) checkRename(f *ssa.Function, call ssa.CallInstruction) {
 	if dc, ok := ct.Call.Args[0].(*ssa.Call); ok && dc.Call.StaticCallee() != nil && dc.Call.StaticCallee().String() == "path/filepath.Dir" && dc.Call.Args[0] == dst {
 		sameDir = true
 	}
+	// the directory may be handed in by the caller together with the file name: then every
+	// call site must pass filepath.Dir(<the file name argument>)
+	if dp, ok := ct.Call.Args[0].(*ssa.Parameter); ok && !sameDir {
+		if fp, ok := dst.(*ssa.Parameter); ok {
+			di, fi := -1, -1
+			for i, q := range f.Params {
+				if q == dp {
+					di = i
+				}
+				if q == fp {
+					fi = i
+				}
+			}
+			sites, good := 0, 0
+			for g := range p.AllFns {
+				if !fnInModule(g) || g.Blocks == nil {
+					continue
+				}
+				for _, b := range g.Blocks {
+					for _, ins := range b.Instrs {
+						cl, ok := ins.(ssa.CallInstruction)
+						if !ok || cl.Common().StaticCallee() != f || di < 0 || fi < 0 {
+							continue
+						}
+						sites++
+						if dc, ok := cl.Common().Args[di].(*ssa.Call); ok && dc.Call.StaticCallee() != nil && dc.Call.StaticCallee().String() == "path/filepath.Dir" && dc.Call.Args[0] == cl.Common().Args[fi] {
+							good++
+						}
+					}
+				}
+			}
+			sameDir = sites > 0 && good == sites
+		}
+	}
 	// write + close dominate the rename
 	wrote, closed := false, false
 	for _, r := range *tmp.Referrers() {
@@ -514,7 +548,21 @@ func (c *Check) settingsMisc() {
 	if mu := c.anchorFn("C19-R4", "internal/driver", "(*config).makeURL"); mu != nil {
 		// some comparison of cfg.get(f) with f.defaultValue exists and guards v = ""
 		ok := false
-		for _, b := range mu.Blocks {
+		for _, g := range withHelpers(mu, 2) {
+			for _, b := range g.Blocks {
+				for _, ins := range b.Instrs {
+					cmp, isCmp := ins.(*ssa.BinOp)
+					if !isCmp || cmp.Op != token.EQL {
+						continue
+					}
+					a, bb := cmp.X, cmp.Y
+					if (isGetCall(a) && isFieldOfValue(bb, "defaultValue")) || (isGetCall(bb) && isFieldOfValue(a, "defaultValue")) {
+						ok = true
+					}
+				}
+			}
+		}
+		for _, b := range mu.Blocks[:0] {
 			for _, ins := range b.Instrs {
 				if cmp, isCmp := ins.(*ssa.BinOp); isCmp && cmp.Op == token.EQL {
 					a, bb := cmp.X, cmp.Y
